@@ -184,7 +184,7 @@ func c03Judge(cs *core.Case, env *Env, pos urlPos, in, out string, lc core.Local
 func runC03(ctx *core.Ctx) {
 	ctx.Rule = "for each drawn URL policy shape (rule scope x how URL checking is switched on x scheme allowlist / custom checks / scheme patterns x relative on/off x rewriter on/off) and each generated URL (obfuscated schemes, C0/space padding, embedded TAB/LF/CR, entity forms via the noisy serialiser, backslashes, opaque/scheme-relative/path-only forms, userinfo, IDN, IPv6, data URIs), ALL 17 (element, attribute) positions are enumerated as single-tag inputs; survivors are classified by a WHATWG-style scheme extractor; non-trivial = a URL attribute survived under URL checking, distinct by (policy, position, url)"
 	ctx.Assume("a browser's scheme extraction is approximated per the WHATWG URL standard; custom checks are re-evaluated on net/url's parse of the emitted value", "script[src] is unreachable without AllowUnsafe and is counted as such")
-	nPol := ctx.N(1200, 10000)
+	nPol := ctx.N(1200, 20000)
 	nURL := ctx.N(120, 400)
 	ctx.Run("url-policies", nPol, func(cs *core.Case) {
 		env := NewEnv(c03Policy(cs))
